@@ -60,3 +60,115 @@ Definition pc_time (H M S us : Z) : result parsed := pc_lift (IsoParse.mk_time H
 (* options["now"] or datetime.now(): the datetime whose date is o_now (the clock read when the option is absent is outside the model, as in
    Model/ParseTotal.v: o_now is the date of whichever value is used); only .year / .month / .day are read *)
 Definition pc_now (o : opts) : parsed := let '(y, m, d) := o_now o in R_i (I_p (IsoParse.mkp 1 y m d 0 0 0 0 None)).
+
+(* ---- PINNED (not translated yet): _parse_common(text, **options) = common_parse_df of Model/ParseTotal.v ---- *)
+Definition pin_parse_common (s : pstr) (o : opts) : result parsed := pc_lift (common_parse_df (o_day_first o) s).
+Definition pin_parse_iso8601_interval (iso : list Z -> result ival) (s : pstr) : result parsed :=
+  match interval_parse iso s with Ok f => Ok (R_form f) | Raise e => Raise e end.
+
+(* ---- _parse_iso8601_interval ---- *)
+(* "/" in text *)
+Definition pc_contains_slash (s : pstr) : bool := DurParse.has_slash s.
+(* first, last = text.split("/"): ValueError unless the text has exactly one "/" *)
+Definition pc_split_slash (s : pstr) : result (pstr * pstr) :=
+  match DurParse.split_slash s with
+  | (first, Some last) => if DurParse.has_slash last then Raise E_ValueError else Ok (first, last)
+  | (_, None) => Raise E_ValueError
+  end.
+(* x[:1] == "P" is head_is_P of Model/ParseTotal.v *)
+(* _Interval(start, end, duration): the record with exactly one None (the only shapes the code builds); its fields are native values / durations *)
+Definition pc_ival (r : parsed) : ival := match r with R_i i => i | R_form _ => I_p (IsoParse.mkp 0 0 0 0 0 0 0 0 None) end.
+Definition pc_Interval (start end_ duration : option parsed) : parsed :=
+  match start, end_, duration with
+  | Some a, Some b, None => R_form (F_start_end (pc_ival a) (pc_ival b))
+  | Some a, None, Some d => R_form (F_start_dur (pc_ival a) (pc_ival d))
+  | None, Some b, Some d => R_form (F_dur_end (pc_ival d) (pc_ival b))
+  | _, _, _ => R_form (F_start_end (pc_ival (R_form (F_start_end (I_p (IsoParse.mkp 0 0 0 0 0 0 0 0 None)) (I_p (IsoParse.mkp 0 0 0 0 0 0 0 0 None)))))
+                                   (pc_ival (R_form (F_start_end (I_p (IsoParse.mkp 0 0 0 0 0 0 0 0 None)) (I_p (IsoParse.mkp 0 0 0 0 0 0 0 0 None))))))
+  end.
+
+(* ---- _parse_common: the code after COMMON.match ---- *)
+From PV Require Import Model.C07Regex Gen.IsoRegex.
+(* COMMON.match(text): the generated AST COMMON_RE run by the matcher of Model/C07Regex.v; `\d` and int() read every Unicode decimal digit as its
+   value, so the matcher runs on the folded text (fold_str of Model/ParseTotal.v) and the groups hold ASCII digits *)
+Definition pc_common_match (s : pstr) : option caps := re_match COMMON_RE COMMON_NGROUPS (fold_str s).
+(* m.group(g) in a truth test: the group took part.  PINNED: each of the groups tested this way (date, monthday, time, second, subsecondsection)
+   contains a mandatory character (\d{4}, \d{2}, ":", \d{1,2}, [.|,]), so a group that took part is a non-empty string *)
+Definition pc_group_truth (c : caps) (g : nat) : bool := IsoParse.has c g.
+(* int(m.group(g)): TypeError when the group did not take part (int(None)).  PINNED: the groups read this way are \d{..}: int() of a non-empty run of
+   decimal digits is its value *)
+Definition pc_group_int (c : caps) (g : nat) : result Z :=
+  match grp c g with None => Raise E_TypeError | Some l => Ok (IsoParse.int_of l) end.
+(* subsecond = m.group(g)[:6]; int(f"{subsecond:0<6}"): the first six characters, right-padded with "0" to six, read as an integer *)
+Definition pc_group_us6 (c : caps) (g : nat) : result Z :=
+  match grp c g with None => Raise E_TypeError | Some l => Ok (IsoParse.int_of (IsoParse.pad6r (firstn 6 l))) end.
+
+(* ================================================================== parser.py :: _parse — the assembly of the pendulum objects *)
+(* `text == "now"` is is_now, pendulum.now() is V_now, options.get("tz", UTC) is deftz (the tz option, else UTC) of Model/ParseTotal.v *)
+Definition pc_is_interval (r : parsed) : bool := match r with R_form _ => true | _ => false end.
+Definition pc_is_pydur (r : parsed) : bool := match r with R_i (I_pydur _ _) => true | _ => false end.
+(* RustDuration is not None and isinstance(parsed, RustDuration): the compiled parser's Duration (RustDuration is None exactly when the extension is
+   absent, and then no value is one) *)
+Definition pc_is_rsdur (r : parsed) : bool := match r with R_i (I_rsdur _) => true | _ => false end.
+(* parsed.tzinfo of a native datetime / time: its fixed offset, None when naive;  parsed.tzinfo or <tz>: a tzinfo object is always truthy *)
+Definition pc_tzinfo (r : parsed) : option Z := IsoParse.p_off (pc_p r).
+Definition pc_tz_or (a : option Z) (b : Z) : Z := match a with Some z => z | None => b end.
+(* pendulum.datetime / date / time on the fields of a native object of the same class.  PINNED: the range checks of the constructors cannot fail on
+   fields that come from a native object (Model/ParseTotal.v finish does not model them either) *)
+Definition pc_pendulum_datetime (y m d H M S us tz : Z) : tval := V_p (IsoParse.mkp 1 y m d H M S us (Some tz)).
+Definition pc_pendulum_date (y m d : Z) : tval := V_p (IsoParse.mkp 2 y m d 0 0 0 0 None).
+Definition pc_pendulum_time (H M S us : Z) : tval := V_p (IsoParse.mkp 3 0 0 0 H M S us None).
+(* `return parsed` for a pendulum Duration: the same object *)
+Definition pc_as_duration (r : parsed) : tval := match r with R_i (I_pydur _ ob) => V_dur ob | _ => V_now end.
+(* the compiled parser's Duration: its eight u32 fields; pendulum.duration(years=, ..., microseconds=) = Duration.__new__ (DurParse.duration_native) *)
+Definition pc_rs (r : parsed) : DurParse.rsdur := match r with R_i (I_rsdur x) => x | _ => DurParse.rsdur0 end.
+Definition pc_pendulum_duration (y mo w d h mi s us : Z) : result tval :=
+  match DurParse.duration_native y mo w d (DurParse.NInt h) (DurParse.NInt mi) (DurParse.NInt s) us with Ok xo => Ok (V_dur (snd xo)) | Raise e => Raise e end.
+
+(* ---- the _Interval record: parsed.start / parsed.end are two DISTINCT native objects (identity 0 / 1: their tzinfo objects are distinct unless the
+   compiled backend's per-offset cache makes them one), parsed.duration a Duration of either backend ---- *)
+Definition nobj := (ival * Z)%type.
+Definition pc_junk : ival := I_p (IsoParse.mkp 0 0 0 0 0 0 0 0 None).
+Definition pc_has_duration (r : parsed) : bool := match r with R_form (F_start_dur _ _) | R_form (F_dur_end _ _) => true | _ => false end.
+Definition pc_has_start (r : parsed) : bool := match r with R_form (F_start_dur _ _) | R_form (F_start_end _ _) => true | _ => false end.
+Definition pc_iv_start (r : parsed) : nobj := match r with R_form (F_start_dur a _) | R_form (F_start_end a _) => (a, 0) | _ => (pc_junk, 0) end.
+Definition pc_iv_end (r : parsed) : nobj := match r with R_form (F_dur_end _ b) | R_form (F_start_end _ b) => (b, 1) | _ => (pc_junk, 1) end.
+Definition pc_iv_duration (r : parsed) : ival := match r with R_form (F_start_dur _ d) | R_form (F_dur_end d _) => d | _ => pc_junk end.
+(* duration.years, .months, .weeks, .remaining_days, .hours, .minutes, .remaining_seconds, .microseconds: parts_of (AttributeError on a non-duration) *)
+Definition pc_dur_field (k : nat) (d : ival) : result Z :=
+  bind (parts_of d) (fun p => let '(a, b, c, dd, e, f, g, h) := p in Ok (nth k [a; b; c; dd; e; f; g; h] 0)).
+
+(* ---- pendulum.instance(native, tz=), DateTime.add / subtract, pendulum.interval(a, b) on the objects the chain builds:
+   a DateTime (wall clock, fixed offset, which tzinfo OBJECT it carries), a Date, anything else ---- *)
+Inductive tzsrc := S_opt | S_own (id off : Z).
+Inductive dtobj := DT (W off : Z) (src : tzsrc) | DD (p : IsoParse.pval) | DX.
+Definition pc_instance (x : nobj) (tz : Z) : result dtobj :=
+  match fst x with
+  | I_p p => if IsoParse.p_kind p =? 1
+             then Ok (DT (wall_p p) (pc_tz_or (IsoParse.p_off p) tz) (match IsoParse.p_off p with Some z => S_own (snd x) z | None => S_opt end))
+             else if IsoParse.p_kind p =? 2 then Ok (DD p) else Ok DX
+  | _ => Raise E_AttributeError                 (* 'Duration' object has no attribute 'tzinfo' *)
+  end.
+Definition pc_dt_add (d : dtobj) (y mo w dd h mi s us : Z) : result dtobj :=
+  match d with
+  | DT W off src => match dt_add off W (y, mo, w, dd, h, mi, s, us) with Ok W' => Ok (DT W' off src) | Raise e => Raise e end
+  | _ => Raise E_TypeError                      (* Date.add(hours=...) / Time.add(years=...): unexpected keyword argument *)
+  end.
+Definition pc_dt_subtract (d : dtobj) (y mo w dd h mi s us : Z) : result dtobj := pc_dt_add d (- y) (- mo) (- w) (- dd) (- h) (- mi) (- s) (- us).
+(* are the two tzinfo objects the same object?  the tz option object with itself; an own tzinfo with itself; two own FixedTimezones of equal offsets
+   under the compiled backend (_safe_timezone caches them per offset) *)
+Definition same_src (rs : bool) (a b : tzsrc) : bool :=
+  match a, b with
+  | S_opt, S_opt => true
+  | S_own i x, S_own j y => (i =? j) || (rs && (x =? y))
+  | _, _ => false
+  end.
+Definition pc_interval (rs : bool) (a b : dtobj) : result tval :=
+  match a, b with
+  | DT Wa oa sa, DT Wb ob sb =>
+      bind (interval_new (same_src rs sa sb) Wa oa Wb ob) (fun _ =>
+      bind (interval_init rs Wa oa Wb ob) (fun _ => Ok (V_ival 1 (p_of_wall Wa oa) (p_of_wall Wb ob))))
+  | DT _ _ _, _ | _, DT _ _ _ => Raise E_ValueError      (* Both start and end of an Interval must have the same type *)
+  | DD p, DD q => Ok (V_ival 2 p q)
+  | _, _ => Raise E_TypeError
+  end.
